@@ -402,6 +402,9 @@ fn read_back(rep: &mut Report, u: &mut U, tok: &Address, cast: &[Address], m: &M
             }
         }
         let minters = cs.iter().map(|a| cl.is_minter(a)).collect();
+        if cl.admin() != cl.owner() {
+            panic!("admin() differs from owner()");
+        }
         (bals, allows, minters, cl.owner())
     });
     let mut sum: Option<i128> = Some(0);
